@@ -315,7 +315,10 @@ static std::string oom_call(const std::vector<std::string>& a) {
     return "HARNESS-unknown-oom-api";
 }
 
-static std::string run(const std::vector<std::string>& a) {
+static std::string run1(const std::vector<std::string>& a);
+// needles point into objects of the case that registered them: no case may see (or scan with) another case's needles
+static std::string run(const std::vector<std::string>& a) { hw::clear_needles(); std::string r = run1(a); hw::clear_needles(); return r; }
+static std::string run1(const std::vector<std::string>& a) {
     const std::string& op = a[0];
     if (op == "oom") return oom_call(a);
     if (op == "heap") return heap_call(a);
